@@ -31,8 +31,22 @@ Inductive mop :=
    importer, class and keys of the in-memory importer, same physical store *)
 | MResealData (c1 n1 c2 n2 : N) (same : bool).
 
+Inductive xop :=
+(* OpenHashSlotSnapshot / OpenBackupHashSlotSnapshot on a metadata store read to the end *)
+| XExport (db : mdb) (slots : list N) (backup_only : bool) (r : res bytes)
+(* the streaming importer; mode 0 ImportHashSlotSnapshotReader, 1 …PreservingMigrationMeta,
+   2 …ForRestoreWithStats(invalidateTokens=false), 3 …(true); store before / after; budget of
+   context polls; Ok = the entry count (modes 2, 3) *)
+| XImport (mode : N) (before : mdb) (req : list N) (stream : bytes) (budget : option N) (r : res N) (after : mdb)
+| XReexport (stream : bytes) (import_ok fresh : bool) (mode : N) (r : res bytes)
+| XRetry (c1 c2 : N) (same : bool)
+| XSweep (kind tried : N) (bad : list (N * N * N))
+(* streaming importer (class c1) against the in-memory ImportHashSlotSnapshot (class c2) *)
+| XData (c1 c2 : N) (same : bool).
+
 Inductive c11_case :=
-| CaseMsg (ops : list mop).
+| CaseMsg (ops : list mop)
+| CaseMeta (ops : list xop).
 
 (* ---- model against implementation ---------------------------------------------------- *)
 Definition mstep_mismatch (o : mop) : bool :=
@@ -131,10 +145,85 @@ Definition mstep_monitor (o : mop) : N :=
   | _ => 0
   end.
 
+(* ---- metadata ---------------------------------------------------------------------------- *)
+Definition xstep_mismatch (o : xop) : bool :=
+  negb match o with
+  | XExport db slots backup_only r => res_eqb bytes_eqb (export_meta crc db slots backup_only) r
+  | XImport mode before req stream budget r after =>
+    let '(db', r') := import_meta crc budget req (1 <=? mode) (mode =? 3) stream before in
+    res_eqb (fun a b => (mode <? 2) || (a =? b)) r' r && mdb_eqb db' after
+  | _ => true
+  end.
+
+Definition meta_stream_ok (slots : list N) (backup_only : bool) (stream : bytes) : bool :=
+  match verify_meta_checksum crc stream with
+  | Err _ => false
+  | Ok p => match dec_meta_payload p with
+            | Some (s, []) =>
+              list_eqb N.eqb (rm_slots s) (normalize_slots slots)
+              && (N.of_nat (length (rm_entries s)) =? rm_count s)
+              && forallb (fun e => in_slots (rm_slots s) (fst e)
+                                   && (negb backup_only || existsb (fun hs => in_spans (backup_spans hs) (fst e)) (rm_slots s)))
+                         (rm_entries s)
+            | _ => false
+            end
+  end.
+
+Definition xstep_monitor (o : xop) : N :=
+  match o with
+  | XExport _ slots backup_only (Ok stream) => if meta_stream_ok slots backup_only stream then 0 else 1
+  | XImport mode before req stream budget r after =>
+    match r with
+    | Err e => if negb (e =? EOther) && negb (mdb_eqb after before) then 1 else 0    (* rejected: untouched *)
+    | Ok _ =>
+      match before with
+      | [] =>
+        (* accepted into an empty store: exactly the entries of the stream (tokens cleared in mode 3) *)
+        match verify_meta_checksum crc stream with
+        | Ok p => match dec_meta_payload p with
+                  | Some (s, []) =>
+                    let want := fold_left (fun d e =>
+                                  match (if mode =? 3 then invalidate_token (rm_slots s) (fst e) (snd e) else Ok (snd e)) with
+                                  | Ok v => mdb_set (fst e) v d
+                                  | Err _ => d
+                                  end) (rm_entries s) [] in
+                    if mdb_eqb after want then 0 else 1
+                  | _ => 1
+                  end
+        | Err _ => 1
+        end
+      | _ => 0
+      end
+    end
+  | XReexport stream import_ok fresh mode r =>
+    if import_ok && fresh && negb (mode =? 3)
+    then match r with Ok s2 => if bytes_eqb s2 stream then 0 else 1 | Err _ => 1 end
+    else 0
+  | XRetry c1 c2 same => if (c2 =? 0) && same then 0 else 1
+  | XSweep _ _ bad => match bad with [] => 0 | _ => 1 end
+  | XData c1 c2 same => if c1 =? 0 then (if (c2 =? 0) && same then 0 else 1) else 0
+  | _ => 0
+  end.
+
+(* the code of a case: 1 as soon as any op violates the property; otherwise the first
+   known-finding code met (0 when every op holds) *)
 Fixpoint first_code {A} (f : A -> N) (l : list A) : N :=
-  match l with [] => 0 | x :: r => match f x with 0 => first_code f r | c => c end end.
+  match l with
+  | [] => 0
+  | x :: r => match f x with
+              | 0 => first_code f r
+              | 1 => 1
+              | c => match first_code f r with 1 => 1 | _ => c end
+              end
+  end.
 
 Definition C11_mismatch (c : c11_case) : bool :=
-  match c with CaseMsg ops => existsb mstep_mismatch ops end.
+  match c with
+  | CaseMsg ops => existsb mstep_mismatch ops
+  | CaseMeta ops => existsb xstep_mismatch ops
+  end.
 Definition C11_monitor (c : c11_case) : N :=
-  match c with CaseMsg ops => first_code mstep_monitor ops end.
+  match c with
+  | CaseMsg ops => first_code mstep_monitor ops
+  | CaseMeta ops => first_code xstep_monitor ops
+  end.
